@@ -194,6 +194,9 @@ func (w *World) Env(extra ...string) []string {
 		// clock dependency inside the (trusted) loader. Pin the non-indexed path.
 		"GODEBUG=goindex=0",
 	}
+	if d := os.Getenv("GOCOVERDIR"); d != "" && os.Getenv("VERIF_COVER") != "" {
+		env = append(env, "GOCOVERDIR="+d)
+	}
 	switch w.Layout {
 	case LayoutMod:
 		env = append(env, "GO111MODULE=on", "GOFLAGS=")
